@@ -185,3 +185,33 @@ Fixpoint height (v : value) : nat :=
   | VMap _ items => S (fold_right (fun kv m => Nat.max (height (snd kv)) m) O items)
   | _ => O
   end.
+
+(* [Shr n0 secret h0 h' a r v]: the SHARING structure of a result.  a is a location of the
+   heap h0 before the call that unfolds to the mapping v, r the corresponding location of the
+   heap h' after the call.  At every level, slot by slot (same key, same position):
+   - a mapping value: the result slot is a dict location >= n0 (allocated by the call), related
+     to the argument's slot in the same way (never the argument's own mapping);
+   - a non-mapping value under a secret key: the result slot IS the secret reference;
+   - any other non-string value (list, bytes, number, None, ...): the result slot IS the
+     argument's reference — shared, not copied ("returned as they are");
+   - any other string: whatever reference mask_password returned (nothing claimed). *)
+Fixpoint Shr (n0 : nat) (secret : loc) (h0 h' : heap) (a r : loc) (v : value) {struct v} : Prop :=
+  match v with
+  | VMap kd vs =>
+      (n0 <= r)%nat /\
+      exists aitems ritems,
+        hget h0 a = Some (PDict kd aitems) /\ hget h' r = Some (PDict dict_kind ritems) /\
+        (fix slots (aits rits : list (key * loc)) (vs : list (key * value)) {struct vs} : Prop :=
+           match aits, rits, vs with
+           | [], [], [] => True
+           | (k, al) :: aits', (k1, rl) :: rits', (k2, v') :: vs' =>
+               k1 = k /\ k2 = k /\
+               match v' with
+               | VMap _ _ => Shr n0 secret h0 h' al rl v'
+               | VStr _ => if secret_key k then rl = secret else True
+               | VOther _ => rl = if secret_key k then secret else al
+               end /\ slots aits' rits' vs'
+           | _, _, _ => False
+           end) aitems ritems vs
+  | _ => True
+  end.
